@@ -129,8 +129,14 @@ def _calib(case, cov, viol):
             for robust in (False, True):
                 model = NonparametricElectionModel({"robust": robust})
                 model.get_unit_prediction_interval_bounds = lambda *a, **k: PredictionIntervals(unadj_lower.copy(), unadj_upper.copy(), conf.copy())
+                # the outstanding units arrive either with fresh 0..m-1 row labels or as a slice of a larger frame (row labels
+                # that are not positions): the bounds belong to rows, not to labels
+                nonrep_in = nonrep
+                if (ALPHAS.index(alpha) + n + int(robust)) % 2:
+                    nonrep_in = nonrep.set_axis([7, 3], axis=0)
+                    cov["outstanding_frames_with_non_positional_labels"] += 1
                 try:
-                    pi = model.get_unit_prediction_intervals(pd.DataFrame({"x": range(n + 3)}), nonrep, alpha, "turnout")
+                    pi = model.get_unit_prediction_intervals(pd.DataFrame({"x": range(n + 3)}), nonrep_in, alpha, "turnout")
                 except Exception as e:
                     if q == 1:
                         cov["quantile_exactly_one_raised"] += 1
